@@ -129,10 +129,14 @@ def concretize(rng, idx, beh, prop, force_mode=None):
             if "cE" in x:
                 nodes.append({"kind": kind, "impl": "ecs_handler", "forward": True})
             elif "pE" in x:
+                # forward mode without a client ECS falls through to preset / send: nothing was forwarded, so the
+                # upstream's echoed ECS must not reach the client (frame.fwd = FALSE in the model)
+                fw = (not (opt and "cE" in opt["opts"])) and rng.random() < 0.5
                 if rng.random() < 0.3:
-                    nodes.append({"kind": kind, "impl": "ecs_handler", "send": True})    # ECS from the client address
+                    nodes.append({"kind": kind, "impl": "ecs_handler", "send": True, "forward": fw})    # ECS from the client address
                 else:
-                    nodes.append({"kind": kind, "impl": rng.choice(["ecs_handler", "ecs"]), "preset": True})
+                    nodes.append({"kind": kind, "impl": "ecs_handler" if fw else rng.choice(["ecs_handler", "ecs"]),
+                                  "preset": True, "forward": fw})
             else:
                 has = opt and "cE" in opt["opts"]
                 nodes.append({"kind": kind, "impl": "ecs_handler", "forward": not has})
@@ -206,6 +210,56 @@ def concretize(rng, idx, beh, prop, force_mode=None):
             "settle": 250 if any(n.get("lazy") for n in nodes) else 0,
             "expected": beh["reply"], "beh": beh}
     return case
+
+
+def c15_scenarios(rng, idx0):
+    """fixed behaviours of Handler.tla for multi-step EDNS histories the random generator rarely reaches:
+    (a) a response with an OPT is replaced by one without (second upstream / local answer): the copier plugins around
+        the chain see uOpt = None and forward nothing; (b) ecs_handler in forward mode with a preset / client address
+        and a client OPT that has no ECS: the generated ECS goes upstream, the upstream's echo stays there."""
+    out = []
+    m = {"rcode": 0, "size": 100, "nrec": 2, "tc": False}
+
+    def add(beh):
+        c = concretize(rng, idx0 + len(out), beh, "C15", force_mode="direct")
+        if c is not None:
+            for n in c["nodes"]:
+                if n["kind"] == "up":
+                    n["impl"] = "terminal"
+            out.append(c)
+
+    for do in (False, True):
+        copt = {"k": "opt", "size": 4096, "do": do, "ver": 0, "opts": ["cC", "cE"]}
+        rep = {"k": "reply", "rcode": 0, "nopt": 1, "tc": False, "opts": [], "do": do}
+        for o1 in (["uC"], ["uC", "uE", "uP"]):
+            # (a) fwdopt / ecs around two upstreams: first answers with OPT + options, second without OPT
+            add({"cq": {"mal": "ok", "opt": copt}, "tr": "tcp", "chain": ["fwdopt", "up", "up"],
+                 "steps": [{"pos": 1, "kind": "fwdopt", "c": "copy", "x": ["cC"]},
+                           {"pos": 2, "kind": "up", "c": "ans", "m": m, "o": o1},
+                           {"pos": 3, "kind": "up", "c": "ans", "m": m, "o": ["-"]}], "reply": rep})
+            add({"cq": {"mal": "ok", "opt": copt}, "tr": "udp", "chain": ["ecs", "fwdopt", "up", "up"],
+                 "steps": [{"pos": 1, "kind": "ecs", "c": "copy", "x": ["cE"]},
+                           {"pos": 2, "kind": "fwdopt", "c": "copy", "x": ["cC"]},
+                           {"pos": 3, "kind": "up", "c": "ans", "m": m, "o": sorted(set(o1) | {"uE"})},
+                           {"pos": 4, "kind": "up", "c": "ans", "m": m, "o": ["-"]}], "reply": rep})
+            # ... and replaced by an OPT with no options
+            add({"cq": {"mal": "ok", "opt": copt}, "tr": "tcp", "chain": ["fwdopt", "up", "up"],
+                 "steps": [{"pos": 1, "kind": "fwdopt", "c": "copy", "x": ["cC"]},
+                           {"pos": 2, "kind": "up", "c": "ans", "m": m, "o": o1},
+                           {"pos": 3, "kind": "up", "c": "ans", "m": m, "o": []}], "reply": rep})
+        # (b) forward mode, client OPT without ECS, preset / send: upstream echoes ECS
+        for copts in ([], ["cC"], ["cC", "cP"]):
+            copt2 = {"k": "opt", "size": rng.choice([512, 1232, 4096]), "do": do, "ver": 0, "opts": copts}
+            for o in (["uE"], ["uC", "uE", "uP"]):
+                for _ in range(2):
+                    add({"cq": {"mal": "ok", "opt": copt2}, "tr": rng.choice(["udp", "tcp"]), "chain": ["ecs", "up"],
+                         "steps": [{"pos": 1, "kind": "ecs", "c": "copy", "x": ["pE"]},
+                                   {"pos": 2, "kind": "up", "c": "ans", "m": m, "o": o}], "reply": rep})
+    for c in out:
+        for n in c["nodes"]:
+            if n["kind"] == "ecs" and (n.get("preset") or n.get("send")) and n["impl"] == "ecs_handler":
+                n["forward"] = True
+    return out
 
 
 def pair_case(rng, idx):
